@@ -185,9 +185,16 @@ impl GneissError {
 pub fn verif_fmt() -> String { unimplemented!() }
 
 // ------------------------------------------------------------------ assumed std specifications
-pub uninterp spec fn key_of<K, Q: ?Sized>(q: &Q) -> K;
-pub broadcast axiom fn ax_key_of_same<K>(k: &K)
-    ensures #[trigger] key_of::<K, K>(k) == *k;
+pub mod keyax {
+    use vstd::prelude::*;
+    pub uninterp spec fn key_of<K, Q: ?Sized>(q: &Q) -> K;
+    // Borrow<K> for K is the identity
+    pub broadcast axiom fn ax_key_of_same<K>(k: &K)
+        ensures #[trigger] key_of::<K, K>(k) == *k;
+}
+pub use keyax::key_of;
+
+broadcast use keyax::ax_key_of_same;
 
 // HashMap::get_mut (std docs: "Returns a mutable reference to the value corresponding to the key.")
 pub assume_specification<'a, 'b, K, V, S, A, Q> [std::collections::HashMap::<K, V, S, A>::get_mut::<Q>] (m: &'a mut HashMap<K, V, S, A>, k: &'b Q) -> (r: Option<&'a mut V>)
